@@ -37,6 +37,7 @@ type GhostFn struct {
 type AtCall struct {
 	Callee string
 	Ord    int
+	Assume bool // the clause is assumed, not proved: it binds a ghost name to the value a call returned (reported)
 	After  bool // evaluated after the call (result bound to `result`), old() still refers to function entry
 	C      Clause
 	Used   bool
@@ -324,7 +325,7 @@ func (cs *ContractSet) LoadContractFile(path, pkgPath string) error {
 				return fmt.Errorf("%s:%d: at outside func", path, ln)
 			}
 			f := strings.Fields(rest)
-			if len(f) < 4 || f[0] != "call" || (f[2] != "assert" && f[2] != "assert-after") {
+			if len(f) < 4 || f[0] != "call" || (f[2] != "assert" && f[2] != "assert-after" && f[2] != "assume-after") {
 				return fmt.Errorf("%s:%d: expected `at call <callee>#<k> assert|assert-after <expr>`", path, ln)
 			}
 			name := f[1]
@@ -333,14 +334,15 @@ func (cs *ContractSet) LoadContractFile(path, pkgPath string) error {
 				ord, _ = strconv.Atoi(name[i+1:])
 				name = name[:i]
 			}
-			after := f[2] == "assert-after"
+			after := f[2] == "assert-after" || f[2] == "assume-after"
+			isAssume := f[2] == "assume-after"
 			kwd := " " + f[2] + " "
 			src := strings.TrimSpace(rest[strings.Index(rest, kwd)+len(kwd):])
 			e, err := parseExpr(src)
 			if err != nil {
 				return fmt.Errorf("%s:%d: %v", path, ln, err)
 			}
-			cur.AtCalls = append(cur.AtCalls, AtCall{Callee: name, Ord: ord, After: after, C: Clause{E: e, Src: src, File: filepath.Base(path), Line: ln}})
+			cur.AtCalls = append(cur.AtCalls, AtCall{Callee: name, Ord: ord, After: after, Assume: isAssume, C: Clause{E: e, Src: src, File: filepath.Base(path), Line: ln}})
 		case "ghostfn":
 			if cur == nil {
 				return fmt.Errorf("%s:%d: ghostfn outside func", path, ln)
